@@ -91,39 +91,31 @@ func ruleR061(c *Ctx) {
 				}
 				// the stacks used by the products of a worker factory are created per product
 				if role.factory >= 0 && role.factory < len(call.Args) {
-					if fac, ok := ast.Unparen(call.Args[role.factory]).(*ast.FuncLit); ok {
-						inspectNoLit(fac.Body, func(y ast.Node) bool {
-							r, ok := y.(*ast.ReturnStmt)
-							if !ok || len(r.Results) != 1 {
-								return true
+					products, unknown := c.factoryProducts(pkg, call.Args[role.factory])
+					if unknown != "" {
+						c.Undecided(key, call.Pos(), "%s", unknown)
+						return true
+					}
+					for _, pr := range products {
+						pinfo := pr.pkg.TypesInfo
+						for _, id := range freeStackVars(a, pinfo, pr.lit) {
+							obj := pinfo.ObjectOf(id)
+							if obj.Pos() < pr.scope.Pos() || obj.Pos() > pr.scope.End() {
+								problems = append(problems, fmt.Sprintf("the worker function uses the stack %s that is shared by all workers", id.Name))
+								continue
 							}
-							prod, ok := ast.Unparen(r.Results[0]).(*ast.FuncLit)
-							if !ok {
-								problems = append(problems, "the worker factory does not return a function literal")
-								return true
-							}
-							for _, id := range freeStackVars(a, info, prod) {
-								obj := info.ObjectOf(id)
-								if obj.Pos() < fac.Pos() || obj.Pos() > fac.End() {
-									problems = append(problems, fmt.Sprintf("the worker function uses the stack %s that is shared by all workers", id.Name))
-									continue
-								}
-								// declared in the factory: from NewEmptyStack
-								as, i := definingAssign(info, fac, obj)
-								okFresh := false
-								if as != nil && len(as.Rhs) == len(as.Lhs) {
-									if ic, ok := ast.Unparen(as.Rhs[i]).(*ast.CallExpr); ok && isCallTo(info, ic, newEmpty) {
-										okFresh = true
-									}
-								}
-								if !okFresh {
-									problems = append(problems, fmt.Sprintf("the per worker stack %s is not created by NewEmptyStack inside the factory", id.Name))
+							// declared in the per product scope: from NewEmptyStack (a parameter would be a stack handed in from outside)
+							as, i := definingAssign(pinfo, pr.scope, obj)
+							okFresh := false
+							if as != nil && len(as.Rhs) == len(as.Lhs) {
+								if ic, ok := ast.Unparen(as.Rhs[i]).(*ast.CallExpr); ok && isCallTo(pinfo, ic, newEmpty) {
+									okFresh = true
 								}
 							}
-							return true
-						})
-					} else {
-						problems = append(problems, "worker factory is not a function literal; its stack discipline is not visible")
+							if !okFresh {
+								problems = append(problems, fmt.Sprintf("the per worker stack %s is not created by NewEmptyStack inside the factory", id.Name))
+							}
+						}
 					}
 				}
 				if len(problems) == 0 {
